@@ -225,7 +225,7 @@ class TailAnalysis:
             rt = canon_masks(W.T.term(asg["r"]))
             op = asg["op"]
             # `&= MAX << residual` == `&= !lowmask(residual)` (clears only the live low bits)
-            ok = op == "&=" and rt == ("un", "!", mask)
+            ok = (op == "&=" and rt == ("un", "!", mask)) or (op in ("|=", "^=") and rt == mask)   # set / flip only the live low bits
             if not ok:
                 self.problems.append(("last-word-write", "the partial last word is updated by `%s`, which is not confined to its low len*width %% BITS bits" % show(F, asg)[:160], F.loc(asg)))
             return
@@ -236,6 +236,11 @@ class TailAnalysis:
             for a, v in ((rt[2], rt[3]), (rt[3], rt[2])):
                 if a == mk_op("&", old, ("un", "!", mask)) and v[0] == "op" and v[1] == "&" and mask in (v[2], v[3]):
                     d = True
+        # `old ^ mask`, `old | mask`, `old & !mask` written out
+        if not d and rt[0] == "op" and rt[1] in ("^", "|") and sorted(map(repr, (rt[2], rt[3]))) == sorted(map(repr, (old, mask))):
+            d = True
+        if not d and rt[0] == "op" and rt[1] == "&" and sorted(map(repr, (rt[2], rt[3]))) == sorted(map(repr, (old, ("un", "!", mask)))):
+            d = True
         if not d:
             self.problems.append(("last-word-write", "the partial last word is overwritten by `%s`, which is not `(old & !mask) | (new & mask)` with mask = (1 << len*width %% BITS) - 1: bits after the last element are modified" % tshow(rt)[:200], F.loc(asg)))
 
@@ -327,6 +332,20 @@ def skeleton(F, b, inl):
     """Multiset of normalized decision atoms / index and shift terms / integer literals of a body,
     with parameter names canonicalized and parallel-iterator plumbing erased."""
     ren = param_roles(b)
+    # the element of a traversal has one name, however it is traversed (`for x in s`, `s.iter().for_each(|x| ..)`)
+    for x in walk(b.body):
+        if x.get("k") == "Closure":
+            for p_ in x.get("params", []):
+                for _nm, pid in pat_bindings(p_):
+                    ren.setdefault(str(pid), "elem")
+        if x.get("k") == "Match" and x.get("src") == "ForLoopDesugar":
+            for a_ in x.get("arms", []):
+                for y in walk(a_.get("body", {})):
+                    if y.get("k") == "Match" and y.get("arms"):
+                        for arm in y["arms"]:
+                            if arm["pat"].get("name") == "Some":
+                                for _nm, pid in pat_bindings(arm["pat"]):
+                                    ren.setdefault(str(pid), "elem")
     items = []
     ERASE = ("par_iter_mut", "par_iter", "with_min_len", "iter_mut", "iter")
 
@@ -347,8 +366,13 @@ def skeleton(F, b, inl):
             items.append(("idx", repr(rename_vars(W.T.term(n["i"]), ren))))
         elif k in ("Assign", "AssignOp"):
             t = W.T.term(n["r"])
+            if n["l"].get("k") == "Path" and n["l"].get("res") == "local" and t[0] == "call" and t[1].endswith("count_ones"):
+                return   # an accumulation `n += w.count_ones()`: the count_ones call itself is the item (as in map/sum)
             if not (n["l"].get("k") == "Path" and mentions(t, lambda x: x[0] == "call" and "Iterator" in x[1])):
                 items.append(("asg", n.get("op", "="), repr(rename_vars(canon_masks(t), ren))))
+        elif k == "MethodCall" and n["name"] == "fill" and len(n.get("args", [])) == 1 and "slice" in (cname(F, n) or ""):
+            # `s.fill(v)` stores v in every element, as `for x in s { *x = v }` does
+            items.append(("asg", "=", repr(rename_vars(canon_masks(W.T.term(n["args"][0])), ren))))
         elif k == "MethodCall" and n["name"] in ("store", "fetch_and", "fetch_or", "fetch_xor", "load", "count_ones"):
             items.append(("call", n["name"], tuple(repr(rename_vars(canon_masks(W.T.term(a)), ren)) for a in n["args"] if F.ty(a) not in ("std::sync::atomic::Ordering",))))
     Walker(F, b, on_node=on_node, inline=inl).run()
